@@ -321,3 +321,167 @@ def _rewire_contract(wrapper, cond, with_degree):
 _rewire_contract("_randomly_rewire_geomodel_I", "c1", False)
 _rewire_contract("_randomly_rewire_geomodel_II", "c2", False)
 _rewire_contract("_randomly_rewire_geomodel_III", "c2", True)
+
+# ============================================================================ core: cross-link kernels (C17)
+_NODES = ["shape(nodes1,0)==m", "shape(nodes2,0)==n", "m>=0", "n>=0", "shape(A,1)==shape(A,0)",
+          "all(0<=nodes1[i] and nodes1[i]<shape(A,0) for i in range(m))",
+          "all(0<=nodes2[j] and nodes2[j]<shape(A,0) for j in range(n))",
+          "all(nodes1[i]!=nodes1[p] for i in range(m) for p in range(i))",
+          "all(nodes2[j]!=nodes2[p] for j in range(n) for p in range(j))",
+          "all(nodes1[i]!=nodes2[j] for i in range(m) for j in range(n))",
+          "shape(cross_A,0)==m", "shape(cross_A,1)==n"]
+_CROSSPAIR = "any((a==nodes1[i] and b==nodes2[j]) or (b==nodes1[i] and a==nodes2[j]) for i in range(m) for j in range(n))"
+_OW_DONE = "all(A[nodes1[i],nodes2[j]]==cross_A[i,j] and A[nodes2[j],nodes1[i]]==cross_A[i,j] for i in range({hi}) for j in range(n))"
+_OW_FRAME = ("all(A[a,b]==old(A[a,b]) for a in range(shape(A,0)) for b in range(shape(A,0)) if not " + _CROSSPAIR + ")")
+K("overwriteAdjacency", "core", props=("C17", "C20"), requires=_NODES,
+  ensures=[_OW_DONE.format(hi="m"), _OW_FRAME], modifies=["A"],
+  loops={"i": [_OW_DONE.format(hi="i"), _OW_FRAME],
+         "i.j": [_OW_DONE.format(hi="i"), _OW_FRAME,
+                 "all(A[nodes1[i],nodes2[p]]==cross_A[i,p] and A[nodes2[p],nodes1[i]]==cross_A[i,p] for p in range(j))"]})
+
+_BIN = "all(cross_A[i,j]==0 or cross_A[i,j]==1 for i in range(m) for j in range(n))"
+K("_randomlySetCrossLinks", "core", props=("C17", "C20"),
+  requires=_NODES + [_BIN, "m>=1", "n>=1"],
+  ensures=[_BIN, _OW_DONE.format(hi="m"), _OW_FRAME],
+  loops={"_": [_BIN], "_.while": [_BIN]},
+  asserts={"store:cross_A": ["cross_A[i,j]==0"]})
+
+_TAB = ("all(0<=cross_links[e,0] and cross_links[e,0]<m and 0<=cross_links[e,1] and cross_links[e,1]<n "
+        "and cross_A[cross_links[e,0],cross_links[e,1]]==1 for e in range(number_cross_links))")
+_TABD = ("all(not (cross_links[e,0]==cross_links[f,0] and cross_links[e,1]==cross_links[f,1]) "
+         "for e in range(number_cross_links) for f in range(e))")
+_ROWS = "all(rowsum(cross_A,a)==rowsum(old(cross_A),a) for a in range(m))"
+
+
+def _sh(t):
+    """same clause with the locals m, n replaced by the shapes they are initialised from"""
+    import re
+    t = re.sub(r"\bm\b", "shape(nodes1,0)", t)
+    return re.sub(r"\bn\b", "shape(nodes2,0)", t)
+
+
+K("_randomlyRewireCrossLinks", "core", props=("C17", "C20"),
+  requires=[_sh(r) for r in _NODES if r not in ("shape(nodes1,0)==m", "shape(nodes2,0)==n", "m>=0", "n>=0")] +
+  [_sh(_BIN), _sh(_TAB), _TABD,
+   "shape(cross_links,0)==number_cross_links", "shape(cross_links,1)==2", "number_cross_links>=1",
+   "shape(nodes1,0)<=%d" % INT32, "shape(nodes2,0)<=%d" % INT32],
+  ensures=[_sh(_BIN), _sh(_TAB), _TABD, _sh(_ROWS), _sh(_OW_DONE.format(hi="m")), _sh(_OW_FRAME)],
+  loops={"_": [_BIN, _TAB, _TABD, _ROWS, "m==shape(nodes1,0) and n==shape(nodes2,0)"],
+         "_.while": [_BIN, _TAB, _TABD, _ROWS, "m==shape(nodes1,0) and n==shape(nodes2,0)"]},
+  asserts={"store:cross_A": ["cross_A[a,b]==1 and cross_A[c,d]==1 and cross_A[a,d]==0 and cross_A[c,b]==0"]})
+for _nm in ("_randomlySetCrossLinks", "_randomlyRewireCrossLinks"):
+    REG[_nm][0].contract.callee_contracts = {"overwriteAdjacency": REG["overwriteAdjacency"][0].contract}
+
+# ============================================================================ core: random-walk betweenness chunk kernels (C19, C03, C02)
+def _newman_contract(name, nsi):
+    """ROWLOCAL: every ghost function takes ABSOLUTE row indices only, so the value computed for
+    absolute row i does not depend on how the node range was cut into chunks; and the value equals
+    the triple-sum definition (fold of the summand over t < s, s, j)."""
+    term = "abs(V[i,s]-V[j,s]-V[i,t]+V[j,t])"
+    if nsi:
+        tstep = "T(i,j,s,t)+ite(NA(i,t)!=0, w[t]*" + term + ", 0)"
+        sstep = "S(i,j,s)+ite(NA(i,s)!=0, w[s]*T(i,j,s,s), 0)"
+        jstep = "Jn(i,j)+ite(Arow(i,j)!=0, w[j]*S(i,j,N), 0)"
+    else:
+        tstep = "T(i,j,s,t)+ite(i!=t, " + term + ", 0)"
+        sstep = "S(i,j,s)+ite(i!=s, T(i,j,s,s), 0)"
+        jstep = "Jn(i,j)+ite(Arow(i,j)!=0, S(i,j,N), 0)"
+    ghost = {"Arow": ("int", "int", "int"), "T": ("int", "int", "int", "int", "float"),
+             "S": ("int", "int", "int", "float"), "Jn": ("int", "int", "float")}
+    req = ["N>=0", "0<=start_i and start_i<=end_i and end_i<=N", "shape(this_A,0)==end_i-start_i", "shape(this_A,1)==N",
+           "shape(V,0)==N", "shape(V,1)==N",
+           "all(this_A[r,j]==Arow(r+start_i,j) for r in range(end_i-start_i) for j in range(N))"]
+    if nsi:
+        ghost["NA"] = ("int", "int", "int")
+        req += ["shape(w,0)==N", "shape(this_not_adj_or_equal,0)==end_i-start_i", "shape(this_not_adj_or_equal,1)==N",
+                "all(this_not_adj_or_equal[r,s]==NA(r+start_i,s) for r in range(end_i-start_i) for s in range(N))"]
+    dom = "for i in range(N) for j in range(N)"
+    defs = [f"all(T(i,j,s,0)==0 {dom} for s in range(N))",
+            f"all(T(i,j,s,t+1)=={tstep} {dom} for s in range(N) for t in range(N))",
+            f"all(S(i,j,0)==0 {dom})",
+            f"all(S(i,j,s+1)=={sstep} {dom} for s in range(N))",
+            "all(Jn(i,0)==0 for i in range(N))",
+            f"all(Jn(i,j+1)=={jstep} {dom})"]
+    done = "all(this_betweenness[r]==Jn(r+start_i,N) for r in range({hi}))"
+    zero = "all(this_betweenness[r]==0 for r in range({lo},end_i-start_i))"
+    return K(name, "core", props=("C19", "C03", "C02", "C20"), requires=req, ghost=ghost, defs=defs,
+             ensures=["shape(result[0],0)==end_i-start_i", "all(result[0][r]==Jn(r+start_i,N) for r in range(end_i-start_i))",
+                      "result[1]==start_i and result[2]==end_i"],
+             loops={"i_rel": [done.format(hi="i_rel"), zero.format(lo="i_rel"), "this_N==end_i-start_i"],
+                    "i_rel.j": [done.format(hi="i_rel"), zero.format(lo="i_rel+1"), "this_N==end_i-start_i",
+                                "i_abs==i_rel+start_i", "this_betweenness[i_rel]==Jn(i_abs,j)"],
+                    "i_rel.j.s": ["sum_j==S(i_abs,j,s)", "i_abs==i_rel+start_i"],
+                    "i_rel.j.s.t": ["sum_s==T(i_abs,j,s,t)", "Vis_minus_Vjs==V[i_abs,s]-V[j,s]", "i_abs==i_rel+start_i"]})
+
+
+_newman_contract("_mpi_newman_betweenness", False)
+_newman_contract("_mpi_nsi_newman_betweenness", True)
+
+# ============================================================================ core: cross transitivity / clustering (C11, C02, C04)
+_XN = ["shape(A,1)==shape(A,0)", "all(0<=nodes1[i] and nodes1[i]<shape(A,0) for i in range(shape(nodes1,0)))",
+       "all(0<=nodes2[j] and nodes2[j]<shape(A,0) for j in range(shape(nodes2,0)))",
+       "shape(nodes1,0)<=%d" % INT32, "shape(nodes2,0)<=%d" % INT32]
+_M, _Nn = "shape(nodes1,0)", "shape(nodes2,0)"
+_dom3 = f"for i in range({_M}) for j in range({_Nn})"
+
+# ---- _cross_transitivity: ordered triple counts over (i in 1, k < j in 2)
+K("_cross_transitivity", "core", props=("C11", "C04", "C20"),
+  requires=_XN,
+  ghost={"tk": ("int", "int", "int", "int"), "gk": ("int", "int", "int", "int"),
+         "tj": ("int", "int", "int"), "gj": ("int", "int", "int"), "ti": ("int", "int"), "gi": ("int", "int")},
+  defs=[f"all(tk(i,j,0)==0 and gk(i,j,0)==0 {_dom3})",
+        f"all(tk(i,j,k+1)==tk(i,j,k)+ite(A[nodes1[i],nodes2[k]]!=0,1,0) {_dom3} for k in range({_Nn}))",
+        f"all(gk(i,j,k+1)==gk(i,j,k)+ite(A[nodes2[j],nodes2[k]]!=0 and A[nodes2[k],nodes1[i]]!=0,1,0) {_dom3} for k in range({_Nn}))",
+        f"all(tj(i,0)==0 and gj(i,0)==0 for i in range({_M}))",
+        f"all(tj(i,j+1)==tj(i,j)+ite(A[nodes1[i],nodes2[j]]!=0, tk(i,j,j), 0) {_dom3})",
+        f"all(gj(i,j+1)==gj(i,j)+ite(A[nodes1[i],nodes2[j]]!=0, gk(i,j,j), 0) {_dom3})",
+        "ti(0)==0 and gi(0)==0",
+        f"all(ti(i+1)==ti(i)+tj(i,{_Nn}) and gi(i+1)==gi(i)+gj(i,{_Nn}) for i in range({_M}))",
+        f"all(tk(i,j,k)>=0 and gk(i,j,k)>=0 {_dom3} for k in range({_Nn}+1))"],
+  ensures=[f"implies(ti({_M})!=0, result==real(gi({_M}))/real(ti({_M})))", f"implies(ti({_M})==0, result==0)"],
+  loops={"i": ["triples==ti(i) and triangles==gi(i)", f"m=={_M} and n=={_Nn}"],
+         "i.j": ["triples==ti(i)+tj(i,j) and triangles==gi(i)+gj(i,j)", f"m=={_M} and n=={_Nn}", "n1==nodes1[i]"],
+         "i.j.k": ["triples==ti(i)+tj(i,j)+tk(i,j,k) and triangles==gi(i)+gj(i,j)+gk(i,j,k)", f"m=={_M} and n=={_Nn}",
+                   "n1==nodes1[i] and n2==nodes2[j]"]},
+  checks=("bounds", "narrow", "divzero"))
+
+# ---- _cross_local_clustering
+K("_cross_local_clustering", "core", props=("C11", "C04", "C20"),
+  requires=_XN + [f"shape(norm,0)=={_M}", f"shape(cross_clustering,0)=={_M}"],
+  ghost={"gk": ("int", "int", "int", "int"), "gj": ("int", "int", "int")},
+  defs=[f"all(gk(i,j,0)==0 {_dom3})",
+        f"all(gk(i,j,k+1)==gk(i,j,k)+ite(A[nodes2[j],nodes2[k]]!=0 and A[nodes2[k],nodes1[i]]!=0,1,0) {_dom3} for k in range({_Nn}))",
+        f"all(gj(i,0)==0 for i in range({_M}))",
+        f"all(gj(i,j+1)==gj(i,j)+ite(A[nodes1[i],nodes2[j]]!=0, gk(i,j,j), 0) {_dom3})"],
+  ensures=[f"all(implies(norm[i]!=0, cross_clustering[i]==real(gj(i,{_Nn}))/norm[i]) for i in range({_M}))",
+           f"all(implies(norm[i]==0, cross_clustering[i]==old(cross_clustering[i])) for i in range({_M}))"],
+  loops={"i": [f"all(implies(norm[p]!=0, cross_clustering[p]==real(gj(p,{_Nn}))/norm[p]) for p in range(i))",
+               f"all(implies(norm[p]==0 or p>=i, cross_clustering[p]==old(cross_clustering[p])) for p in range({_M}))",
+               f"m=={_M} and n=={_Nn}"],
+         "i.j": ["counter==gj(i,j)", "n1==nodes1[i]", f"m=={_M} and n=={_Nn}"],
+         "i.j.k": ["counter==gj(i,j)+gk(i,j,k)", "n1==nodes1[i] and n2==nodes2[j]", f"m=={_M} and n=={_Nn}"]},
+  checks=("bounds", "narrow", "divzero"))
+
+# ---- _nsi_cross_transitivity
+K("_nsi_cross_transitivity", "core", props=("C11", "C02", "C04", "C20"),
+  requires=_XN + ["shape(node_weights,0)==shape(A,0)"],
+  ghost={"aq": ("int", "int", "int", "float"), "bq": ("int", "int", "int", "float"),
+         "ap": ("int", "int", "float"), "bp": ("int", "int", "float"), "av": ("int", "float"), "bv": ("int", "float")},
+  defs=[f"all(aq(i,j,j+1)==0 and bq(i,j,j+1)==0 {_dom3})",
+        # q runs over (p, n): partial sums from p+1 up to q (exclusive)
+        f"all(bq(i,j,q+1)==bq(i,j,q)+ite(A[nodes1[i],nodes2[q]]!=0, 2*node_weights[nodes2[j]]*node_weights[nodes2[q]]*node_weights[nodes1[i]], 0) "
+        f"{_dom3} for q in range(j+1,{_Nn}))",
+        f"all(aq(i,j,q+1)==aq(i,j,q)+ite(A[nodes1[i],nodes2[q]]!=0 and A[nodes2[j],nodes2[q]]!=0, "
+        f"2*node_weights[nodes2[j]]*node_weights[nodes2[q]]*node_weights[nodes1[i]], 0) {_dom3} for q in range(j+1,{_Nn}))",
+        f"all(ap(i,0)==0 and bp(i,0)==0 for i in range({_M}))",
+        f"all(ap(i,j+1)==ap(i,j)+ite(A[nodes1[i],nodes2[j]]!=0, node_weights[nodes2[j]]*node_weights[nodes2[j]]*node_weights[nodes1[i]]+aq(i,j,{_Nn}), 0) {_dom3})",
+        f"all(bp(i,j+1)==bp(i,j)+ite(A[nodes1[i],nodes2[j]]!=0, node_weights[nodes2[j]]*node_weights[nodes2[j]]*node_weights[nodes1[i]]+bq(i,j,{_Nn}), 0) {_dom3})",
+        "av(0)==0 and bv(0)==0",
+        f"all(av(i+1)==av(i)+ap(i,{_Nn}) and bv(i+1)==bv(i)+bp(i,{_Nn}) for i in range({_M}))"],
+  ensures=[f"implies(bv({_M})!=0, result==av({_M})/bv({_M}))"],
+  loops={"v": ["T1==av(v) and T2==bv(v)", f"m=={_M} and n=={_Nn}"],
+         "v.p": ["T1==av(v)+ap(v,p) and T2==bv(v)+bp(v,p)", "node_v==nodes1[v] and weight_v==node_weights[nodes1[v]]", f"m=={_M} and n=={_Nn}"],
+         "v.p.q": ["T1==av(v)+ap(v,p)+weight_p*weight_p*weight_v+aq(v,p,q) and T2==bv(v)+bp(v,p)+weight_p*weight_p*weight_v+bq(v,p,q)",
+                   "node_v==nodes1[v] and weight_v==node_weights[nodes1[v]] and node_p==nodes2[p] and weight_p==node_weights[nodes2[p]]",
+                   "ppv==weight_p*weight_p*weight_v", f"m=={_M} and n=={_Nn}"]},
+  checks=("bounds", "narrow"))
